@@ -155,6 +155,9 @@ func (m *Features) MarshalBinary() ([]byte, error) {
 }
 
 func (m *Features) UnmarshalBinary(data []byte) error {
+	if len(data) < sizeOfUint32 {
+		return io.ErrUnexpectedEOF
+	}
 	*m = Features(unmarshalUint32LE(data))
 	return nil
 }
